@@ -160,8 +160,9 @@ def build_case(r, idx, label):
     nreg = 1 if name == "pragma" else r.randint(1, 3)
     positions = sorted(r.sample(range(0, len(src) + 1), min(nreg, len(src) + 1)), reverse=True)
     where = r.random()
-    if has_enum and 3 not in positions:
-        positions[-1] = r.choice([2, 3])        # a region in front of the last enumerator / of the enum's closing brace
+    free = [q for q in (2, 3) if q not in positions[:-1]]
+    if has_enum and 3 not in positions and free:
+        positions[-1] = r.choice(free)          # a region in front of the last enumerator / of the enum's closing brace
         positions.sort(reverse=True)
     elif where < 0.1:
         positions[-1] = 0                       # region at the very start of the file
